@@ -113,6 +113,33 @@ def to_smt2(terms):
     return order_datatypes(s.to_smt2())
 
 
+def split_claim(smt2):
+    """The query `assumptions and not (c1 and .. and cn)` as n queries `assumptions and not ci`
+    (conjunctions and the consequents of implications are opened): every one unsat <=> the query unsat.
+    Returns None when the claim is not a conjunction (or the text cannot be re-read)."""
+    try:
+        ctx_terms = list(z3.parse_smt2_string(smt2))
+    except Exception:
+        return None
+    if not ctx_terms or not z3.is_not(ctx_terms[-1]):
+        return None
+    pc, claim = ctx_terms[:-1], ctx_terms[-1].arg(0)
+
+    def conj(t):
+        if z3.is_and(t):
+            out = []
+            for c in t.children():
+                out.extend(conj(c))
+            return out
+        if z3.is_implies(t):
+            return [z3.Implies(t.arg(0), c) for c in conj(t.arg(1))]
+        return [t]
+    cs = [c for c in conj(claim) if not z3.is_true(z3.simplify(c))]
+    if len(cs) < 2 or len(cs) > 40:
+        return None
+    return [to_smt2(pc + [z3.Not(c)]) for c in cs]
+
+
 def uses_strings(smt2):
     return ('String' in smt2) or ('(Seq ' in smt2) or ('seq.' in smt2) or ('str.' in smt2)
 
@@ -241,6 +268,22 @@ def solve_one(job):
         if r['status'] == 'unsat':
             r['variant'] = 'cone of influence'
             return r
+        # the claim is often a conjunction (a class invariant with several clauses, a postcondition per
+        # child kind) of which one conjunct is hard: the conjuncts separately, on the small query
+        parts = split_claim(coi) if timeout_ms > 5000 else None
+        if parts:
+            t0_ = time.time()
+            tried_ = list(r.get('tried', []))
+            all_unsat = True
+            for k_, ptxt in enumerate(parts):
+                rp = solve_one((oid, ptxt, timeout_ms, portfolio))
+                tried_.extend(rp.get('tried', []))
+                if rp['status'] != 'unsat':
+                    all_unsat = False
+                    break
+            if all_unsat:
+                return {'status': 'unsat', 'backend': 'cvc5/z3', 'time': time.time() - t0_, 'model': None, 'id': oid,
+                        'tried': tried_, 'variant': 'cone of influence, claim split into %d conjuncts' % len(parts)}
         r2 = solve_one((oid, (light, full, qf) if light is not None else full, timeout_ms, portfolio))
         r2['tried'] = r.get('tried', []) + r2.get('tried', [])
         if r2['status'] == 'unknown' and timeout_ms > 5000:
